@@ -97,7 +97,26 @@ def run_z3(smt2, timeout_ms, evals=None, seed=0, prefer=None):
         res = {"verdict": "sat", "backend": "z3", "time": dt, "model": _model_to_dict(m, ctx)}
         res["evals"] = _eval_terms(m, ctx, smt2, evals)
         return res
-    return {"verdict": "unknown", "backend": "z3", "time": dt, "reason": s.reason_unknown()}
+    reason = s.reason_unknown()
+    if prefer:
+        # unknown on a quantified query: look for a *small* counter-model (adding size
+        # bounds only strengthens the query, so a model found is a model of the original)
+        decls = "\n".join(l for l in smt2.splitlines() if l.startswith("(declare-") or l.startswith("(define-"))
+        try:
+            s2 = z3.Solver(ctx=ctx)
+            s2.set("timeout", int(timeout_ms // 2))
+            s2.from_string(smt2)
+            for p in prefer:
+                for f in z3.parse_smt2_string(decls + f"\n(assert {p})", ctx=ctx):
+                    s2.add(f)
+            if s2.check() == z3.sat:
+                m = s2.model()
+                res = {"verdict": "sat", "backend": "z3", "time": time.time() - t0, "model": _model_to_dict(m, ctx), "note": "found with size bounds"}
+                res["evals"] = _eval_terms(m, ctx, smt2, evals)
+                return res
+        except z3.Z3Exception:
+            pass
+    return {"verdict": "unknown", "backend": "z3", "time": time.time() - t0, "reason": reason}
 
 
 def run_cvc5(smt2, timeout_ms, strings=False):
